@@ -1,1 +1,753 @@
-(* placeholder: proofs are being written *)
+(* Proofs for C06: list-backed and map-backed compositions are observationally identical. *)
+From Coq Require Import List ZArith NArith Bool Arith String Permutation Lia Field Ring Field_theory Ring_theory.
+From CE Require Import Num OField Str TableTypes TableModel Comp ESpec CompOps Render CompSpec CompArith Table.
+Import ListNotations.
+Local Open Scope nat_scope.
+
+(* ------------------------------------------------------------------------------------------ *)
+(* same_map is an equivalence; with distinct keys it is "same set of entries" *)
+Lemma same_map_refl : forall a, same_map a a.
+Proof. intros a k. split; reflexivity. Qed.
+
+Lemma same_map_sym : forall a b, same_map a b -> same_map b a.
+Proof. intros a b H k. destruct (H k) as [H1 H2]. split; symmetry; assumption. Qed.
+
+Lemma same_map_trans : forall a b c, same_map a b -> same_map b c -> same_map a c.
+Proof.
+  intros a b c H1 H2 k. destruct (H1 k) as [A1 A2]. destruct (H2 k) as [B1 B2].
+  split; [rewrite A1; exact B1 | rewrite A2; exact B2].
+Qed.
+
+Lemma nodup_NoDup : forall l, nodup_keys l = true -> NoDup l.
+Proof.
+  intros l H. apply nodup_keys_NoDup in H. apply (NoDup_map_inv fst). exact H.
+Qed.
+
+Lemma same_map_In : forall a b, same_map a b -> nodup_keys a = true -> nodup_keys b = true ->
+  forall kv, In kv a -> In kv b.
+Proof.
+  intros a b H Ha Hb [k v] Hin. destruct (H k) as [H1 H2].
+  assert (Hm : e_mem k a = true) by (apply mem_In; exists v; exact Hin).
+  rewrite H2 in Hm. apply In_get in Hm.
+  rewrite <- H1, (get_In k v a Ha Hin) in Hm. exact Hm.
+Qed.
+
+Lemma same_map_perm : forall a b, same_map a b -> nodup_keys a = true -> nodup_keys b = true ->
+  Permutation a b.
+Proof.
+  intros a b H Ha Hb. apply NoDup_Permutation.
+  - apply nodup_NoDup. exact Ha.
+  - apply nodup_NoDup. exact Hb.
+  - intros kv. split.
+    + apply same_map_In; assumption.
+    + apply same_map_In; [apply same_map_sym|..]; assumption.
+Qed.
+
+Lemma perm_same_map : forall a b, Permutation a b -> nodup_keys a = true -> same_map a b.
+Proof.
+  intros a b P Ha k. split.
+  - apply get_perm; assumption.
+  - apply mem_perm. exact P.
+Qed.
+
+(* ------------------------------------------------------------------------------------------ *)
+(* conversions *)
+Lemma get_copy_from : forall l acc k, nodup_keys l = true ->
+  e_get k (fold_left (fun acc kv => e_set (fst kv) (snd kv) acc) l acc)
+  = if e_mem k l then e_get k l else e_get k acc.
+Proof.
+  intros l. induction l as [|[k0 v] r IH]; intros acc k H.
+  - reflexivity.
+  - cbn [nodup_keys] in H. apply andb_true_iff in H. destruct H as [H1 H2].
+    apply negb_true_iff in H1.
+    cbn [fold_left fst snd]. rewrite (IH _ k H2), get_set. cbn [e_mem e_get].
+    destruct (key_eqb k k0) eqn:E.
+    + apply key_eqb_eq in E. subst k0. rewrite H1. reflexivity.
+    + reflexivity.
+Qed.
+
+Lemma mem_copy_from : forall l acc k,
+  e_mem k (fold_left (fun acc kv => e_set (fst kv) (snd kv) acc) l acc) = e_mem k l || e_mem k acc.
+Proof.
+  intros l. induction l as [|[k0 v] r IH]; intros acc k.
+  - reflexivity.
+  - cbn [fold_left fst snd]. rewrite IH, mem_set. cbn [e_mem].
+    destruct (key_eqb k k0), (e_mem k r); reflexivity.
+Qed.
+
+Lemma copy_same_map : forall l, nodup_keys l = true -> same_map (e_copy l) l /\ nodup_keys (e_copy l) = true.
+Proof.
+  intros l H. split.
+  - intros k. unfold e_copy. split.
+    + rewrite (get_copy_from l [] k H). destruct (e_mem k l) eqn:E; [reflexivity|].
+      rewrite (get_notmem _ _ E). reflexivity.
+    + rewrite mem_copy_from. cbn [e_mem]. apply orb_false_r.
+  - apply nodup_copy.
+Qed.
+
+(* ------------------------------------------------------------------------------------------ *)
+(* equality *)
+Lemma has_In : forall k v l, e_has k v l = true <-> In (k, v) l.
+Proof.
+  intros k v l. unfold e_has. rewrite existsb_exists. split.
+  - intros [[k1 v1] [Hin H]]. cbn [fst snd] in H. apply andb_true_iff in H. destruct H as [H1 H2].
+    apply key_eqb_eq in H1. apply Z.eqb_eq in H2. subst. exact Hin.
+  - intros Hin. exists (k, v). split; [exact Hin|]. cbn [fst snd].
+    rewrite key_eqb_refl, Z.eqb_refl. reflexivity.
+Qed.
+
+Lemma e_eq_spec : forall a b, e_eq a b = true <-> List.length a = List.length b /\ incl a b.
+Proof.
+  intros a b. unfold e_eq. rewrite andb_true_iff, Nat.eqb_eq, forallb_forall. split.
+  - intros [H1 H2]. split; [exact H1|]. intros [k v] Hin. apply has_In. apply (H2 (k, v)). exact Hin.
+  - intros [H1 H2]. split; [exact H1|]. intros [k v] Hin. cbn [fst snd]. apply has_In. apply H2. exact Hin.
+Qed.
+
+Lemma eq_same_map : forall a b, nodup_keys a = true -> nodup_keys b = true -> (e_eq a b = true <-> same_map a b).
+Proof.
+  intros a b Ha Hb. rewrite e_eq_spec. split.
+  - intros [Hl Hi]. apply perm_same_map; [|exact Ha].
+    apply NoDup_Permutation.
+    + apply nodup_NoDup. exact Ha.
+    + apply nodup_NoDup. exact Hb.
+    + intros kv. split; [apply Hi|].
+      apply (NoDup_length_incl (nodup_NoDup a Ha)); [lia | exact Hi].
+  - intros H. pose proof (same_map_perm a b H Ha Hb) as P. split.
+    + apply Permutation_length. exact P.
+    + intros kv Hin. apply (Permutation_in _ P). exact Hin.
+Qed.
+
+(* ------------------------------------------------------------------------------------------ *)
+(* table symbols *)
+Lemma tbl_find_In : forall s (t : list (string * elem)) e,
+  tbl_find s t = Some e -> exists k, In (k, e) t /\ codes k = s.
+Proof.
+  intros s t. induction t as [|[k0 e0] r IH]; intros e H.
+  - discriminate H.
+  - cbn [tbl_find] in H. destruct (str_eqb (codes k0) s) eqn:E.
+    + inversion H. subst. apply str_eqb_eq in E. exists k0. split; [left; reflexivity | exact E].
+    + destruct (IH e H) as [k [Hin Hk]]. exists k. split; [right; exact Hin | exact Hk].
+Qed.
+
+Lemma has_elem_sym_ok : forall tbl s, table_syms_ok tbl = true -> has_elem tbl s = true -> sym_ok s = true.
+Proof.
+  intros tbl s Ht Hs. unfold has_elem in Hs. destruct (tbl_find s tbl) as [e|] eqn:E; [|discriminate Hs].
+  apply tbl_find_In in E. destruct E as [k [Hin Hk]].
+  unfold table_syms_ok in Ht. rewrite forallb_forall in Ht. specialize (Ht _ Hin). cbn [fst] in Ht.
+  rewrite Hk in Ht. exact Ht.
+Qed.
+
+Definition plain_char (x : N) : bool := (x <? 128)%N && negb (x =? LB)%N && negb (x =? RB)%N.
+
+Lemma sym_ok_inv : forall s, sym_ok s = true ->
+  exists c r, s = c :: r /\ is_alpha c = true /\ forallb plain_char s = true /\ (List.length s <= 3)%nat.
+Proof.
+  intros s H. unfold sym_ok in H. destruct s as [|c r]; [discriminate H|].
+  apply andb_true_iff in H. destruct H as [H H3]. apply andb_true_iff in H. destruct H as [H1 H2].
+  exists c, r. split; [reflexivity|]. split; [exact H1|]. split; [exact H2|].
+  apply Nat.leb_le. exact H3.
+Qed.
+
+Lemma plain_split_lb : forall s, forallb plain_char s = true -> split_lb s = None.
+Proof.
+  intros s. induction s as [|c r IH]; intros H.
+  - reflexivity.
+  - cbn [forallb] in H. apply andb_true_iff in H. destruct H as [H1 H2].
+    unfold plain_char in H1. apply andb_true_iff in H1. destruct H1 as [H1 _].
+    apply andb_true_iff in H1. destruct H1 as [_ H1]. apply negb_true_iff in H1.
+    cbn [split_lb]. rewrite H1, (IH H2). reflexivity.
+Qed.
+
+Lemma espec_parse_plain : forall tbl s, table_syms_ok tbl = true -> has_elem tbl s = true ->
+  espec_parse tbl s = EOk (s, 0%N).
+Proof.
+  intros tbl s Ht Hs. pose proof (has_elem_sym_ok tbl s Ht Hs) as Hok.
+  apply sym_ok_inv in Hok. destruct Hok as [c [r [_ [_ [Hp _]]]]].
+  unfold espec_parse. rewrite (plain_split_lb s Hp), Hs. reflexivity.
+Qed.
+
+Lemma plain_char_inv : forall c, plain_char c = true ->
+  (c <? 128)%N = true /\ (c =? LB)%N = false /\ (c =? RB)%N = false.
+Proof.
+  intros c H. unfold plain_char in H. apply andb_true_iff in H. destruct H as [H H3].
+  apply andb_true_iff in H. destruct H as [H1 H2].
+  apply negb_true_iff in H2. apply negb_true_iff in H3. auto.
+Qed.
+
+Lemma width_ascii : forall c, (c <? 128)%N = true -> width c = 1.
+Proof. intros c H. unfold width. rewrite H. reflexivity. Qed.
+
+Lemma quick_check_sym : forall u s, sym_ok s = true ->
+  quick_check u s = LikeYes \/ (quick_check u s = LikeMaybe).
+Proof.
+  intros u s H. apply sym_ok_inv in H. destruct H as [c [r [E [Ha [Hp Hl]]]]]. subst s.
+  assert (Hal : is_alphabetic u c = true).
+  { cbn [forallb] in Hp. apply andb_true_iff in Hp. destruct Hp as [Hc _].
+    apply plain_char_inv in Hc. destruct Hc as [Hc _]. unfold is_alphabetic. rewrite Hc. exact Ha. }
+  destruct r as [|c2 [|c3 [|c4 r]]].
+  - left. cbn [forallb] in Hp. apply andb_true_iff in Hp. destruct Hp as [Hc _].
+    apply plain_char_inv in Hc. destruct Hc as [Hc _].
+    unfold quick_check. cbn [blen]. rewrite (width_ascii c Hc). cbn [Nat.add Nat.eqb]. rewrite Hal. reflexivity.
+  - left. cbn [forallb] in Hp. apply andb_true_iff in Hp. destruct Hp as [Hc Hp].
+    apply andb_true_iff in Hp. destruct Hp as [Hc2 _].
+    apply plain_char_inv in Hc. destruct Hc as [Hc _].
+    apply plain_char_inv in Hc2. destruct Hc2 as [Hc2 [Hlb Hrb]].
+    unfold quick_check. cbn [blen rev app]. rewrite (width_ascii c Hc), (width_ascii c2 Hc2).
+    cbn [Nat.add Nat.eqb Nat.ltb Nat.leb]. rewrite Hlb, Hrb, Hal. reflexivity.
+  - right. cbn [forallb] in Hp. apply andb_true_iff in Hp. destruct Hp as [Hc Hp].
+    apply andb_true_iff in Hp. destruct Hp as [Hc2 Hp]. apply andb_true_iff in Hp. destruct Hp as [Hc3 _].
+    apply plain_char_inv in Hc. destruct Hc as [Hc _].
+    apply plain_char_inv in Hc2. destruct Hc2 as [Hc2 _].
+    apply plain_char_inv in Hc3. destruct Hc3 as [Hc3 _].
+    unfold quick_check. cbn [blen rev app]. rewrite (width_ascii c Hc), (width_ascii c2 Hc2), (width_ascii c3 Hc3).
+    cbn [Nat.add Nat.eqb Nat.ltb Nat.leb]. reflexivity.
+  - cbn [List.length] in Hl. lia.
+Qed.
+
+Lemma plain_symbol (tbl : list (string * elem)) (tbl_ok : table_syms_ok tbl = true) (uni_alphabetic : char -> bool) :
+  forall s l,
+    has_elem tbl s = true ->
+    v_index_str tbl uni_alphabetic s l = e_get (s, 0%N) l /\ m_index_str tbl uni_alphabetic s l = e_get (s, 0%N) l
+    /\ v_find_str s l = e_get (s, 0%N) l /\ m_get_str tbl s l = e_get (s, 0%N) l.
+Proof.
+  intros s l Hs.
+  assert (Hm : m_get_str tbl s l = e_get (s, 0%N) l).
+  { unfold m_get_str, plain_key. rewrite Hs. reflexivity. }
+  pose proof (espec_parse_plain tbl s tbl_ok Hs) as Hp.
+  pose proof (quick_check_sym uni_alphabetic s (has_elem_sym_ok tbl s tbl_ok Hs)) as Hq.
+  unfold v_index_str, m_index_str. rewrite Hp.
+  destruct Hq as [Hq | Hq]; rewrite Hq; repeat split; try reflexivity; exact Hm.
+Qed.
+
+Lemma inc_str_one_key {F : Type} (N : Num F) (tbl : list (string * elem)) (tbl_ok : table_syms_ok tbl = true)
+  (sh1 : ents -> ents) (sh1_perm : forall l, Permutation (sh1 l) l) :
+  forall f s n (a b : comp F) k,
+    has_elem tbl s = true -> nodup_keys (c_ents a) = true ->
+    e_get k (c_ents (fst (apply N tbl sh1 f (OIncStr s n) a b)))
+    = if key_eqb k (s, 0%N) then (e_get k (c_ents a) + n)%Z else e_get k (c_ents a).
+Proof.
+  intros f s n a b k Hs Ha.
+  pose proof (espec_parse_plain tbl s tbl_ok Hs) as Hp.
+  assert (E : fst (apply N tbl sh1 f (OIncStr s n) a b) = dirty sh1 f (e_inc (s, 0%N) n (c_ents a))).
+  { cbn [apply]. unfold plain_key. rewrite Hp, Hs.
+    destruct f; try reflexivity; destruct (e_mem (s, 0%N) (c_ents a)); reflexivity. }
+  rewrite E. unfold dirty. cbn [c_ents].
+  rewrite (get_sh sh1 sh1_perm) by (apply nodup_inc; exact Ha).
+  rewrite get_inc. destruct (key_eqb k (s, 0%N)) eqn:Ek; [|reflexivity].
+  apply key_eqb_eq in Ek. subst k. reflexivity.
+Qed.
+
+(* ------------------------------------------------------------------------------------------ *)
+(* the mass *)
+Section MassPerm.
+  Context {F : Type} (N : Num F).
+  Variable tbl : list (string * elem).
+  Hypothesis OF : OField N.
+  Add Field Ffm : (of_field N OF).
+
+  Lemma mass_sum_perm : forall a b, Permutation a b -> mass_sum N tbl a = mass_sum N tbl b.
+  Proof.
+    intros a b P. induction P as [| [k c] l l' P IH | [k1 c1] [k2 c2] l | l l' l'' P1 IH1 P2 IH2].
+    - reflexivity.
+    - cbn [mass_sum]. rewrite IH. reflexivity.
+    - cbn [mass_sum]. ring.
+    - rewrite IH1. exact IH2.
+  Qed.
+
+  Lemma mass_agrees : forall a b,
+    same_map a b -> nodup_keys a = true -> nodup_keys b = true -> mass_sum N tbl a = mass_sum N tbl b.
+  Proof. intros a b H Ha Hb. apply mass_sum_perm. apply same_map_perm; assumption. Qed.
+End MassPerm.
+
+(* ------------------------------------------------------------------------------------------ *)
+(* the order used by to_formula *)
+Lemma str_leb_total : forall a b, str_leb a b = true \/ str_leb b a = true.
+Proof.
+  intros a. induction a as [|x r IH]; intros b.
+  - left. reflexivity.
+  - destruct b as [|y s]; [right; reflexivity|]. cbn [str_leb].
+    destruct (N.ltb_spec x y); [left; reflexivity|].
+    destruct (N.ltb_spec y x); [right; reflexivity|]. apply IH.
+Qed.
+
+Lemma str_leb_antisym : forall a b, str_leb a b = true -> str_leb b a = true -> a = b.
+Proof.
+  intros a. induction a as [|x r IH]; intros b H1 H2.
+  - destruct b; [reflexivity | discriminate H2].
+  - destruct b as [|y s]; [discriminate H1|]. cbn [str_leb] in H1, H2.
+    destruct (N.ltb_spec x y); destruct (N.ltb_spec y x); try discriminate; try lia.
+    assert (x = y) by lia. subst y. f_equal. apply IH; assumption.
+Qed.
+
+Lemma str_leb_trans : forall a b c, str_leb a b = true -> str_leb b c = true -> str_leb a c = true.
+Proof.
+  intros a. induction a as [|x r IH]; intros b c H1 H2.
+  - reflexivity.
+  - destruct b as [|y s]; [discriminate H1|]. destruct c as [|z t]; [discriminate H2|].
+    cbn [str_leb] in *.
+    destruct (N.ltb_spec x y); destruct (N.ltb_spec y x); destruct (N.ltb_spec y z);
+      destruct (N.ltb_spec z y); destruct (N.ltb_spec x z); destruct (N.ltb_spec z x);
+      try discriminate; try lia; try reflexivity.
+    apply (IH s t); assumption.
+Qed.
+
+Lemma key_leb_total : forall a b, key_leb a b = true \/ key_leb b a = true.
+Proof.
+  intros [a1 a2] [b1 b2]. unfold key_leb. cbn [fst snd].
+  destruct (str_eqb a1 b1) eqn:E.
+  - apply str_eqb_eq in E. subst b1.
+    assert (E : str_eqb a1 a1 = true) by (apply str_eqb_eq; reflexivity). rewrite E.
+    destruct (N.leb_spec a2 b2); [left; reflexivity|]. right. apply N.leb_le. lia.
+  - destruct (str_eqb b1 a1) eqn:E'.
+    + apply str_eqb_eq in E'. subst b1.
+      assert (E2 : str_eqb a1 a1 = true) by (apply str_eqb_eq; reflexivity). rewrite E2 in E. discriminate E.
+    + apply str_leb_total.
+Qed.
+
+Lemma key_leb_antisym : forall a b, key_leb a b = true -> key_leb b a = true -> a = b.
+Proof.
+  intros [a1 a2] [b1 b2]. unfold key_leb. cbn [fst snd]. intros H1 H2.
+  destruct (str_eqb a1 b1) eqn:E.
+  - apply str_eqb_eq in E. subst b1.
+    assert (E : str_eqb a1 a1 = true) by (apply str_eqb_eq; reflexivity). rewrite E in H2.
+    apply N.leb_le in H1. apply N.leb_le in H2. f_equal. lia.
+  - destruct (str_eqb b1 a1) eqn:E'.
+    + apply str_eqb_eq in E'. subst b1.
+      assert (E2 : str_eqb a1 a1 = true) by (apply str_eqb_eq; reflexivity). rewrite E2 in E. discriminate E.
+    + assert (a1 = b1) by (apply str_leb_antisym; assumption). subst b1.
+      assert (E2 : str_eqb a1 a1 = true) by (apply str_eqb_eq; reflexivity). rewrite E2 in E. discriminate E.
+Qed.
+
+Lemma str_eqb_refl : forall a, str_eqb a a = true.
+Proof. intros a. apply str_eqb_eq. reflexivity. Qed.
+
+Lemma str_eqb_false : forall a b, a <> b -> str_eqb a b = false.
+Proof.
+  intros a b H. destruct (str_eqb a b) eqn:E; [|reflexivity]. apply str_eqb_eq in E. contradiction.
+Qed.
+
+Lemma key_leb_trans : forall a b c, key_leb a b = true -> key_leb b c = true -> key_leb a c = true.
+Proof.
+  intros [a1 a2] [b1 b2] [c1 c2]. unfold key_leb. cbn [fst snd]. intros H1 H2.
+  destruct (list_eq_dec N.eq_dec a1 b1) as [Eab | Nab].
+  - subst b1. rewrite str_eqb_refl in H1.
+    destruct (list_eq_dec N.eq_dec a1 c1) as [Eac | Nac].
+    + subst c1. rewrite str_eqb_refl in *. apply N.leb_le in H1. apply N.leb_le in H2. apply N.leb_le. lia.
+    + rewrite (str_eqb_false _ _ Nac) in *. exact H2.
+  - rewrite (str_eqb_false _ _ Nab) in H1.
+    destruct (list_eq_dec N.eq_dec b1 c1) as [Ebc | Nbc].
+    + subst c1. rewrite (str_eqb_false _ _ Nab). exact H1.
+    + rewrite (str_eqb_false _ _ Nbc) in H2.
+      destruct (list_eq_dec N.eq_dec a1 c1) as [Eac | Nac].
+      * subst c1. exfalso. apply Nab. apply str_leb_antisym; assumption.
+      * rewrite (str_eqb_false _ _ Nac). apply (str_leb_trans a1 b1 c1); assumption.
+Qed.
+
+Fixpoint ssorted (l : ents) : Prop :=
+  match l with
+  | [] => True
+  | x :: r => (forall y, In y r -> key_leb (fst x) (fst y) = true) /\ ssorted r
+  end.
+
+Lemma ins_key_In : forall x l y, In y (ins_key x l) <-> y = x \/ In y l.
+Proof.
+  intros x l y. induction l as [|z r IH].
+  - cbn [ins_key In]. split; intros [H|H]; auto.
+  - cbn [ins_key]. destruct (key_leb (fst z) (fst x)).
+    + cbn [In]. rewrite IH. split; intros H; tauto.
+    + cbn [In]. split; intros H; intuition.
+Qed.
+
+Lemma ins_key_perm : forall x l, Permutation (ins_key x l) (x :: l).
+Proof.
+  intros x l. induction l as [|z r IH].
+  - apply Permutation_refl.
+  - cbn [ins_key]. destruct (key_leb (fst z) (fst x)).
+    + apply (perm_trans (l' := z :: x :: r)); [apply perm_skip; exact IH | apply perm_swap].
+    + apply Permutation_refl.
+Qed.
+
+Lemma ins_key_sorted : forall x l, ssorted l -> ssorted (ins_key x l).
+Proof.
+  intros x l. induction l as [|z r IH]; intros H.
+  - cbn. split; [intros y []| exact I].
+  - cbn [ins_key]. destruct H as [H1 H2]. destruct (key_leb (fst z) (fst x)) eqn:E.
+    + cbn [ssorted]. split; [|apply IH; exact H2].
+      intros y Hy. apply ins_key_In in Hy. destruct Hy as [Hy | Hy]; [subst y; exact E | apply H1; exact Hy].
+    + assert (Hxz : key_leb (fst x) (fst z) = true).
+      { destruct (key_leb_total (fst x) (fst z)) as [T | T]; [exact T | rewrite T in E; discriminate E]. }
+      cbn [ssorted]. split; [|split; assumption].
+      intros y [Hy | Hy]; [subst y; exact Hxz|].
+      apply (key_leb_trans _ (fst z)); [exact Hxz | apply H1; exact Hy].
+Qed.
+
+Lemma sort_sorted : forall l, ssorted (sort_ents l).
+Proof.
+  intros l. induction l as [|x r IH]; [exact I|].
+  unfold sort_ents in *. cbn [fold_right]. apply ins_key_sorted. exact IH.
+Qed.
+
+Lemma sort_perm : forall l, Permutation (sort_ents l) l.
+Proof.
+  intros l. induction l as [|x r IH]; [apply Permutation_refl|].
+  unfold sort_ents in *. cbn [fold_right].
+  apply (perm_trans (ins_key_perm _ _)). apply perm_skip. exact IH.
+Qed.
+
+Lemma sorted_unique : forall l1 l2, ssorted l1 -> ssorted l2 -> NoDup (map fst l1) -> Permutation l1 l2 -> l1 = l2.
+Proof.
+  intros l1. induction l1 as [|x r1 IH]; intros l2 S1 S2 ND P.
+  - apply Permutation_nil in P. symmetry. exact P.
+  - destruct l2 as [|y r2].
+    + apply Permutation_sym, Permutation_nil in P. discriminate P.
+    + assert (Exy : x = y).
+      { assert (Hx : In x (y :: r2)) by (apply (Permutation_in _ P); left; reflexivity).
+        assert (Hy : In y (x :: r1)) by (apply (Permutation_in _ (Permutation_sym P)); left; reflexivity).
+        destruct Hx as [Hx | Hx]; [symmetry; exact Hx|].
+        destruct Hy as [Hy | Hy]; [exact Hy|].
+        exfalso. destruct S1 as [S1 _]. destruct S2 as [S2 _].
+        assert (Ek : fst x = fst y).
+        { apply key_leb_antisym; [apply S1; exact Hy | apply S2; exact Hx]. }
+        cbn [map] in ND. inversion ND as [|k ks Hn _]. subst. apply Hn. rewrite Ek.
+        apply in_map. exact Hy. }
+      subst y. f_equal. apply IH.
+      * destruct S1; assumption.
+      * destruct S2; assumption.
+      * cbn [map] in ND. inversion ND; assumption.
+      * apply (Permutation_cons_inv P).
+Qed.
+
+Lemma sort_perm_eq : forall a b, nodup_keys a = true -> Permutation a b -> sort_ents a = sort_ents b.
+Proof.
+  intros a b Ha P. apply sorted_unique.
+  - apply sort_sorted.
+  - apply sort_sorted.
+  - apply nodup_keys_NoDup. apply (nodup_perm a); [apply Permutation_sym, sort_perm | exact Ha].
+  - apply (perm_trans (sort_perm a)). apply (perm_trans P). apply Permutation_sym, sort_perm.
+Qed.
+
+(* ------------------------------------------------------------------------------------------ *)
+(* observers *)
+Lemma syms_absent : forall tbl a s n, syms_in_table tbl a = true -> has_elem tbl s = false -> e_get (s, n) a = 0%Z.
+Proof.
+  intros tbl a s n Ht Hs. apply get_notmem. destruct (e_mem (s, n) a) eqn:E; [|reflexivity].
+  apply mem_In in E. destruct E as [v Hv]. unfold syms_in_table in Ht. rewrite forallb_forall in Ht.
+  specialize (Ht _ Hv). cbn [fst] in Ht. rewrite Ht in Hs. discriminate Hs.
+Qed.
+
+Lemma observers (tbl : list (string * elem)) (tbl_ok : table_syms_ok tbl = true) (uni_alphabetic : char -> bool) :
+  forall a b,
+    same_map a b -> nodup_keys a = true -> nodup_keys b = true -> syms_in_table tbl a = true ->
+    (forall k, e_get k a = e_get k b)
+    /\ List.length a = List.length b /\ Permutation a b
+    /\ (forall s, v_index_str tbl uni_alphabetic s a = m_index_str tbl uni_alphabetic s b)
+    /\ (forall s, v_find_str s a = m_get_str tbl s b)
+    /\ to_formula tbl uni_alphabetic false a = to_formula tbl uni_alphabetic true b.
+Proof.
+  intros a b H Ha Hb Ht.
+  pose proof (same_map_perm a b H Ha Hb) as P.
+  assert (Hg : forall k, e_get k a = e_get k b) by (intros k; apply (H k)).
+  assert (Hf : forall s, v_find_str s a = m_get_str tbl s b).
+  { intros s. unfold v_find_str, m_get_str, plain_key. destruct (has_elem tbl s) eqn:E.
+    - apply Hg.
+    - apply (syms_absent tbl); assumption. }
+  assert (Hi : forall s, v_index_str tbl uni_alphabetic s a = m_index_str tbl uni_alphabetic s b).
+  { intros s. unfold v_index_str, m_index_str. destruct (quick_check uni_alphabetic s).
+    - apply Hf.
+    - reflexivity.
+    - destruct (espec_parse tbl s); [apply Hg | reflexivity | reflexivity]. }
+  split; [exact Hg|]. split; [apply Permutation_length; exact P|]. split; [exact P|].
+  split; [exact Hi|]. split; [exact Hf|].
+  unfold to_formula, idx_str. rewrite !Hi. rewrite (sort_perm_eq a b Ha P). reflexivity.
+Qed.
+
+(* ------------------------------------------------------------------------------------------ *)
+(* simulation *)
+Definition esim (x y : ents) : Prop := same_map x y /\ nodup_keys x = true /\ nodup_keys y = true.
+
+Lemma esim_refl : forall x, nodup_keys x = true -> esim x x.
+Proof. intros x H. split; [apply same_map_refl | split; exact H]. Qed.
+
+Lemma esim_sym : forall x y, esim x y -> esim y x.
+Proof. intros x y [H [Hx Hy]]. split; [apply same_map_sym; exact H | split; assumption]. Qed.
+
+Lemma esim_trans : forall x y z, esim x y -> esim y z -> esim x z.
+Proof.
+  intros x y z [H1 [Hx Hy]] [H2 [_ Hz]]. split; [apply (same_map_trans x y z); assumption | split; assumption].
+Qed.
+
+Lemma esim_set : forall k n x y, esim x y -> esim (e_set k n x) (e_set k n y).
+Proof.
+  intros k n x y [H [Hx Hy]]. split; [|split; apply nodup_set; assumption].
+  intros k'. destruct (H k') as [H1 H2]. rewrite !get_set, !mem_set, H1, H2. split; reflexivity.
+Qed.
+
+Lemma esim_inc : forall k n x y, esim x y -> esim (e_inc k n x) (e_inc k n y).
+Proof.
+  intros k n x y [H [Hx Hy]]. split; [|split; apply nodup_inc; assumption].
+  intros k'. destruct (H k') as [H1 H2]. destruct (H k) as [H3 _].
+  rewrite !get_inc, !mem_inc, H1, H2, H3. split; reflexivity.
+Qed.
+
+Lemma esim_add : forall a1 a2 b1 b2, esim a1 a2 -> esim b1 b2 -> esim (e_add a1 b1) (e_add a2 b2).
+Proof.
+  intros a1 a2 b1 b2 [Ha [Ha1 Ha2]] [Hb [Hb1 Hb2]]. split; [|split; apply nodup_add; assumption].
+  intros k. destruct (Ha k) as [A1 A2]. destruct (Hb k) as [B1 B2].
+  rewrite !get_add, !mem_add, A1, A2, B1, B2 by assumption. split; reflexivity.
+Qed.
+
+Lemma esim_sub : forall a1 a2 b1 b2, esim a1 a2 -> esim b1 b2 -> esim (e_sub a1 b1) (e_sub a2 b2).
+Proof.
+  intros a1 a2 b1 b2 [Ha [Ha1 Ha2]] [Hb [Hb1 Hb2]]. split; [|split; apply nodup_sub; assumption].
+  intros k. destruct (Ha k) as [A1 A2]. destruct (Hb k) as [B1 B2].
+  rewrite !get_sub, !mem_sub, A1, A2, B1, B2 by assumption. split; reflexivity.
+Qed.
+
+Lemma esim_mapv : forall (g : Z -> Z) x y, esim x y ->
+  esim (map (fun kv => (fst kv, g (snd kv))) x) (map (fun kv => (fst kv, g (snd kv))) y).
+Proof.
+  intros g x y [H [Hx Hy]]. split; [|split; rewrite nodup_mapv; assumption].
+  intros k. destruct (H k) as [H1 H2]. rewrite !get_mapv, !mem_mapv, H1, H2. split; reflexivity.
+Qed.
+
+Lemma esim_copy : forall x, nodup_keys x = true -> esim (e_copy x) x.
+Proof.
+  intros x H. destruct (copy_same_map x H) as [H1 H2]. split; [exact H1 | split; assumption].
+Qed.
+
+Section Sim.
+  Context {F : Type} (N : Num F).
+  Variable tbl : list (string * elem).
+  Hypothesis tbl_ok : table_syms_ok tbl = true.
+
+  (* the family-free meaning of an operation on the entries *)
+  Definition norm (o : cop) (a b : ents) : ents :=
+    match o with
+    | OSet k n | OIdxSet k n => e_set k n a
+    | OInc k n | OIdxAdd k n => e_inc k n a
+    | OIdxStrSet s n => match espec_parse tbl s with EOk k => e_set k n a | _ => a end
+    | OIncStr s n => match espec_parse tbl s with EOk k => e_inc k n a | _ => a end
+    | OGetStrMutSet _ _ => a
+    | OAddRef _ | OAddVal _ | OAddAssign _ | OAddAssignMut _ => e_add a b
+    | OSubRef _ | OSubVal _ | OSubAssign _ | OSubAssignMut _ => e_sub a b
+    | OMulRef n | OMulVal n | OMulAssign n | OMulAssignMut n => e_mul a n
+    | ONeg | ONegRef => e_neg a
+    | OIterMut x y => map (fun kv => (fst kv, (snd kv * x + y)%Z)) a
+    | OClone _ => b
+    | OIntoMap | OIntoVec => a
+    | OFromPairs l => e_collect l
+    | OFmass | ONop => a
+    end.
+
+  Definition norm_out (o : cop) : outcome :=
+    match o with
+    | OIdxStrSet s _ | OIncStr s _ => match espec_parse tbl s with EOk _ => Done | _ => Panicked end
+    | _ => Done
+    end.
+
+  Lemma norm_esim : forall o a1 a2 b1 b2, esim a1 a2 -> esim b1 b2 -> esim (norm o a1 b1) (norm o a2 b2).
+  Proof.
+    intros o a1 a2 b1 b2 Ha Hb. destruct o; cbn [norm];
+      try (apply esim_set; exact Ha); try (apply esim_inc; exact Ha);
+      try (apply esim_add; assumption); try (apply esim_sub; assumption);
+      try (unfold e_neg, e_mul; apply (esim_mapv (fun v => (v * _)%Z)); exact Ha);
+      try exact Ha; try exact Hb.
+    - destruct (espec_parse tbl s); [apply esim_set|..]; exact Ha.
+    - destruct (espec_parse tbl s); [apply esim_inc|..]; exact Ha.
+    - apply (esim_mapv (fun v => (v * a + b)%Z)). exact Ha.
+    - apply esim_refl. apply nodup_collect.
+  Qed.
+
+  Section OneSide.
+    Variable shuf : ents -> ents.
+    Hypothesis shuf_perm : forall l, Permutation (shuf l) l.
+
+    Lemma sh_esim : forall f x, nodup_keys x = true -> esim (sh shuf f x) x.
+    Proof.
+      intros f x H. split; [|split; [apply (nodup_sh shuf shuf_perm); exact H | exact H]].
+      intros k. split; [apply (get_sh shuf shuf_perm); exact H | apply (mem_sh shuf shuf_perm)].
+    Qed.
+
+    Lemma dirty_esim : forall f x, nodup_keys x = true -> esim (c_ents (dirty (F:=F) shuf f x)) x.
+    Proof. intros f x H. unfold dirty. cbn [c_ents]. apply sh_esim. exact H. Qed.
+
+    Lemma bin_esim : forall f g (a b : comp F),
+      (forall x, g x [] = x) -> (forall x y, nodup_keys x = true -> nodup_keys (g x y) = true) ->
+      nodup_keys (c_ents a) = true ->
+      esim (c_ents (bin shuf f g a b)) (g (c_ents a) (c_ents b)).
+    Proof.
+      intros f g a b Hnil Hg Ha. unfold bin. destruct (c_ents b) as [|x r].
+      - rewrite Hnil. apply esim_refl. exact Ha.
+      - apply dirty_esim. apply Hg. exact Ha.
+    Qed.
+
+    Lemma apply_inc_str : forall f s n (a b : comp F),
+      apply N tbl shuf f (OIncStr s n) a b
+      = match espec_parse tbl s with
+        | EOk k => (dirty shuf f (e_inc k n (c_ents a)), Done)
+        | _ => (mkComp (c_ents a) None, Panicked)
+        end.
+    Proof.
+      intros f s n a b. cbn [apply]. unfold plain_key. destruct (has_elem tbl s) eqn:Hs.
+      - rewrite (espec_parse_plain tbl s tbl_ok Hs).
+        destruct f; try reflexivity; destruct (e_mem (s, 0%N) (c_ents a)); reflexivity.
+      - destruct f; reflexivity.
+    Qed.
+
+    Lemma apply_norm : forall f o (a b : comp F),
+      not_get_str_mut o = true -> nodup_keys (c_ents a) = true -> nodup_keys (c_ents b) = true ->
+      esim (c_ents (fst (apply N tbl shuf f o a b))) (norm o (c_ents a) (c_ents b))
+      /\ snd (apply N tbl shuf f o a b) = norm_out o.
+    Proof.
+      intros f o a b Ho Ha Hb.
+      assert (Hset : forall k n, esim (c_ents (dirty (F:=F) shuf f (e_set k n (c_ents a)))) (e_set k n (c_ents a))).
+      { intros. apply dirty_esim, nodup_set, Ha. }
+      assert (Hinc : forall k n, esim (c_ents (dirty (F:=F) shuf f (e_inc k n (c_ents a)))) (e_inc k n (c_ents a))).
+      { intros. apply dirty_esim, nodup_inc, Ha. }
+      assert (Hadd : esim (c_ents (bin shuf f e_add a b)) (e_add (c_ents a) (c_ents b))).
+      { apply bin_esim; [reflexivity | intros; apply nodup_add; assumption | exact Ha]. }
+      assert (Hsub : esim (c_ents (bin shuf f e_sub a b)) (e_sub (c_ents a) (c_ents b))).
+      { apply bin_esim; [reflexivity | intros; apply nodup_sub; assumption | exact Ha]. }
+      assert (Hmul : forall n, esim (e_mul (c_ents a) n) (e_mul (c_ents a) n)).
+      { intros. apply esim_refl. rewrite nodup_mul. exact Ha. }
+      assert (Hrefl : esim (c_ents a) (c_ents a)) by (apply esim_refl; exact Ha).
+      destruct o; try (split; [cbn [apply fst norm c_ents]; solve [apply Hset | apply Hinc | exact Hadd | exact Hsub
+                                     | apply Hmul | exact Hrefl] | reflexivity]).
+      - (* OIdxStrSet *) cbn [apply norm norm_out].
+        destruct (espec_parse tbl s); cbn [fst snd c_ents]; (split; [|reflexivity]); [apply Hset | exact Hrefl | exact Hrefl].
+      - (* OIncStr *) rewrite apply_inc_str. cbn [norm norm_out].
+        destruct (espec_parse tbl s); cbn [fst snd c_ents]; (split; [|reflexivity]); [apply Hinc | exact Hrefl | exact Hrefl].
+      - discriminate Ho.
+      - (* OIterMut *) split; [|reflexivity]. cbn [apply fst norm c_ents].
+        apply esim_refl. rewrite (nodup_mapv (fun v => (v * a0 + b0)%Z)). exact Ha.
+      - (* OClone *) split; [|reflexivity]. cbn [apply fst norm]. apply esim_refl. exact Hb.
+      - (* OIntoMap *) split; [|destruct f; reflexivity]. cbn [norm].
+        destruct f; cbn [apply fst]; try exact Hrefl.
+        + apply (esim_trans _ (e_copy (e_copy (c_ents a)))); [apply dirty_esim, nodup_copy|].
+          apply (esim_trans _ (e_copy (c_ents a))); apply esim_copy; [apply nodup_copy | exact Ha].
+        + apply (esim_trans _ (e_copy (e_copy (c_ents a)))); [apply dirty_esim, nodup_copy|].
+          apply (esim_trans _ (e_copy (c_ents a))); apply esim_copy; [apply nodup_copy | exact Ha].
+        + apply (esim_trans _ (e_copy (c_ents a))); [apply dirty_esim, nodup_copy | apply esim_copy; exact Ha].
+      - (* OIntoVec *) split; [|destruct f; reflexivity]. cbn [norm].
+        destruct f; cbn [apply fst c_ents]; try exact Hrefl.
+        + apply (esim_trans _ (e_copy (e_copy (c_ents a)))); [apply dirty_esim, nodup_copy|].
+          apply (esim_trans _ (e_copy (c_ents a))); apply esim_copy; [apply nodup_copy | exact Ha].
+        + apply (esim_trans _ (e_copy (e_copy (c_ents a)))); [apply dirty_esim, nodup_copy|].
+          apply (esim_trans _ (e_copy (c_ents a))); apply esim_copy; [apply nodup_copy | exact Ha].
+        + apply esim_copy. exact Ha.
+      - (* OFromPairs *) split; [|reflexivity]. cbn [apply fst norm]. apply dirty_esim, nodup_collect.
+      - (* OFmass *) split; [|reflexivity]. cbn [apply fst norm]. unfold c_fmass.
+        destruct (c_cache a); [exact Hrefl|]. destruct (calc_mass N tbl (c_ents a)); exact Hrefl.
+    Qed.
+  End OneSide.
+End Sim.
+
+Definition rsim {F : Type} (a b : reg (F:=F)) : Prop := esim (c_ents (r_comp a)) (c_ents (r_comp b)).
+
+Lemma Forall2_nth_R : forall {A} (R : A -> A -> Prop) l1 l2 i d1 d2,
+  Forall2 R l1 l2 -> R d1 d2 -> R (nth i l1 d1) (nth i l2 d2).
+Proof.
+  intros A R l1 l2 i d1 d2 H Hd. revert i. induction H as [|x y r1 r2 Hxy H IH]; intros i.
+  - destruct i; exact Hd.
+  - destruct i as [|i']; [exact Hxy | apply IH].
+Qed.
+
+Lemma Forall2_set_nth : forall {A} (R : A -> A -> Prop) l1 l2 i x y,
+  Forall2 R l1 l2 -> R x y -> Forall2 R (set_nth i x l1) (set_nth i y l2).
+Proof.
+  intros A R l1 l2 i x y H Hxy. revert i. induction H as [|u v r1 r2 Huv H IH]; intros i.
+  - destruct i; constructor.
+  - destruct i as [|i']; cbn [set_nth]; constructor; auto.
+Qed.
+
+Section StepSim.
+  Context {F : Type} (N : Num F).
+  Variable tbl : list (string * elem).
+  Hypothesis tbl_ok : table_syms_ok tbl = true.
+
+  Definition dreg : reg (F:=F) := mkReg FVecDirect empty_comp.
+  Definition opnd (regs : list (reg (F:=F))) (o : cop) : comp F :=
+    match operand o with Some q => r_comp (nth q regs dreg) | None => empty_comp end.
+
+  Lemma step_unfold : forall shuf regs r o, exists f',
+    step N tbl shuf regs (r, o)
+    = (set_nth r (mkReg f' (fst (apply N tbl shuf (r_fam (nth r regs dreg)) o (r_comp (nth r regs dreg)) (opnd regs o)))) regs,
+       snd (apply N tbl shuf (r_fam (nth r regs dreg)) o (r_comp (nth r regs dreg)) (opnd regs o))).
+  Proof.
+    intros shuf regs r o. unfold step, opnd, dreg. cbv zeta.
+    set (a := nth r regs (mkReg FVecDirect empty_comp)).
+    set (b := match operand o with
+              | Some q => r_comp (nth q regs (mkReg FVecDirect empty_comp))
+              | None => empty_comp end).
+    match goal with |- context [let '(c, out) := apply N tbl shuf (r_fam a) o (r_comp a) ?bb in _] =>
+      replace bb with b by (destruct o; reflexivity) end.
+    destruct (apply N tbl shuf (r_fam a) o (r_comp a) b) as [c out].
+    eexists. cbn [fst snd]. reflexivity.
+  Qed.
+
+  Variables sh1 sh2 : ents -> ents.
+  Hypothesis sh1_perm : forall l, Permutation (sh1 l) l.
+  Hypothesis sh2_perm : forall l, Permutation (sh2 l) l.
+
+  Lemma apply_sim : forall f1 f2 o (a1 a2 b1 b2 : comp F),
+    not_get_str_mut o = true ->
+    esim (c_ents a1) (c_ents a2) -> esim (c_ents b1) (c_ents b2) ->
+    esim (c_ents (fst (apply N tbl sh1 f1 o a1 b1))) (c_ents (fst (apply N tbl sh2 f2 o a2 b2)))
+    /\ snd (apply N tbl sh1 f1 o a1 b1) = snd (apply N tbl sh2 f2 o a2 b2).
+  Proof.
+    intros f1 f2 o a1 a2 b1 b2 Ho Ha Hb.
+    destruct Ha as [Ha [Ha1 Ha2]]. destruct Hb as [Hb [Hb1 Hb2]].
+    destruct (apply_norm N tbl tbl_ok sh1 sh1_perm f1 o a1 b1 Ho Ha1 Hb1) as [E1 O1].
+    destruct (apply_norm N tbl tbl_ok sh2 sh2_perm f2 o a2 b2 Ho Ha2 Hb2) as [E2 O2].
+    split; [|rewrite O1, O2; reflexivity].
+    apply (esim_trans _ _ _ E1). apply (esim_trans _ (norm tbl o (c_ents a2) (c_ents b2))).
+    - apply norm_esim; split; auto.
+    - apply esim_sym. exact E2.
+  Qed.
+
+  Lemma step_sim : forall regs1 regs2 ro,
+    Forall2 (fun a b : reg (F:=F) =>
+               same_map (c_ents (r_comp a)) (c_ents (r_comp b))
+               /\ nodup_keys (c_ents (r_comp a)) = true /\ nodup_keys (c_ents (r_comp b)) = true) regs1 regs2 ->
+    not_get_str_mut (snd ro) = true ->
+    Forall2 (fun a b : reg (F:=F) =>
+               same_map (c_ents (r_comp a)) (c_ents (r_comp b))
+               /\ nodup_keys (c_ents (r_comp a)) = true /\ nodup_keys (c_ents (r_comp b)) = true)
+            (fst (step N tbl sh1 regs1 ro)) (fst (step N tbl sh2 regs2 ro))
+    /\ snd (step N tbl sh1 regs1 ro) = snd (step N tbl sh2 regs2 ro).
+  Proof.
+    intros regs1 regs2 [r o] H Ho. cbn [snd] in Ho. change (Forall2 rsim regs1 regs2) in H.
+    destruct (step_unfold sh1 regs1 r o) as [f1' E1]. destruct (step_unfold sh2 regs2 r o) as [f2' E2].
+    rewrite E1, E2. cbn [fst snd].
+    assert (Hd : rsim dreg dreg) by (apply esim_refl; reflexivity).
+    assert (Ha : rsim (nth r regs1 dreg) (nth r regs2 dreg)) by (apply Forall2_nth_R; assumption).
+    assert (Hb : esim (c_ents (opnd regs1 o)) (c_ents (opnd regs2 o))).
+    { unfold opnd. destruct (operand o) as [q|].
+      - apply (Forall2_nth_R rsim); assumption.
+      - apply esim_refl. reflexivity. }
+    destruct (apply_sim (r_fam (nth r regs1 dreg)) (r_fam (nth r regs2 dreg)) o _ _ _ _ Ho Ha Hb) as [S1 S2].
+    split; [|exact S2].
+    change (Forall2 rsim
+      (set_nth r (mkReg f1' (fst (apply N tbl sh1 (r_fam (nth r regs1 dreg)) o (r_comp (nth r regs1 dreg)) (opnd regs1 o)))) regs1)
+      (set_nth r (mkReg f2' (fst (apply N tbl sh2 (r_fam (nth r regs2 dreg)) o (r_comp (nth r regs2 dreg)) (opnd regs2 o)))) regs2)).
+    apply Forall2_set_nth; [exact H|]. unfold rsim. cbn [r_comp]. exact S1.
+  Qed.
+End StepSim.
+
+Lemma C06_example :
+  let C := (codes "C", 0%N) in let C13 := (codes "C", 13%N) in let H := (codes "H", 0%N) in
+  let v := e_add (e_collect [(C13, 5%Z); (H, 1%Z)]) (e_collect [(C, 2%Z)]) in
+  let m := e_collect [(C, 2%Z); (H, 1%Z); (C13, 5%Z)] in
+  same_map v m /\ nodup_keys v = true /\ nodup_keys m = true /\ v <> m
+  /\ v_index_str (build_table table_src) (fun _ => false) (codes "C") v = 2%Z
+  /\ e_eq v m = true.
+Proof.
+  intros C C13 H v m.
+  assert (Hv : nodup_keys v = true) by (vm_compute; reflexivity).
+  assert (Hm : nodup_keys m = true) by (vm_compute; reflexivity).
+  assert (He : e_eq v m = true) by (vm_compute; reflexivity).
+  split; [apply (eq_same_map v m Hv Hm); exact He|].
+  split; [exact Hv|]. split; [exact Hm|]. split.
+  - vm_compute. intros E. discriminate E.
+  - split; [vm_compute; reflexivity | exact He].
+Qed.
